@@ -746,7 +746,7 @@ func (runInfo *runInfoStruct) runSwitchStmt(stmt *ast.SwitchStmt) {
 		runInfo.env = env
 		return
 	}
-	value := runInfo.rv
+	value := heldValue(runInfo.rv)
 
 	for _, switchCaseStmt := range stmt.Cases {
 		caseStmt := switchCaseStmt.(*ast.SwitchCaseStmt)
